@@ -128,6 +128,17 @@ func (w *World) ApplyAPI(call string) error {
 	case "convdel":
 		// the converter executable disappears from the converter directory (delivered as the watcher delivers it)
 		w.Mgr.VerifConverterRemoved(filepath.Join(w.ConvDir, arg))
+	case "convreplace":
+		// another executable appears under the name of a converter that was removed before: its output differs
+		// (generation number), the watcher delivers Create
+		if w.ConvGen == nil {
+			w.ConvGen = map[string]int{}
+		}
+		w.ConvGen[arg]++
+		if err := os.WriteFile(filepath.Join(w.Dir, arg+".gen"), []byte(fmt.Sprint(w.ConvGen[arg])), 0o644); err != nil {
+			return err
+		}
+		w.Mgr.VerifConverterCreated(filepath.Join(w.ConvDir, arg))
 	case "convrestart":
 		// the converter executable is rewritten: the watcher restarts its processes
 		w.Mgr.VerifConverterWritten(filepath.Join(w.ConvDir, arg))
